@@ -176,6 +176,15 @@ def make_faults(ctx, rng, thorough):
         p1 = fastx.format_fastq(recs1[:n2])
         yield Fault(f"truncate-R2@{o}", {"in1.fq": t1.encode(), "in2.fq": cut.encode()}, "two", malformed,
                     {"in1.fq": p1, "in2.fq": fastx.format_fastq(recs2[:n2])}, detail=f"R2 has {n2} of {n} records")
+    # the first file truncated (R2 complete), down to an empty file: the mates of R2 are missing
+    for o in ([0, 1] + [rng.randrange(2, len(t1)) for _ in range(2 if not thorough else 12)]):
+        cut = t1[:o]
+        pref, wf = wf_prefix_fastq(cut)
+        n1 = len(fastx.parse_fastq(pref, strict=False))
+        yield Fault(f"truncate-R1@{o}", {"in1.fq": cut.encode(), "in2.fq": t2.encode()}, "two", (not wf) or n1 != n,
+                    {"in1.fq": fastx.format_fastq(recs1[:n1]), "in2.fq": fastx.format_fastq(recs2[:n1])}, detail=f"R1 has {n1} of {n} records, R2 all")
+    yield Fault("truncate-R1-gz-empty", {"in1.fq.gz": gzip.compress(b"", 6, mtime=0), "in2.fq": t2.encode()}, "two", True,
+                {"in1.fq.gz": "", "in2.fq": ""}, detail="R1 is an empty gzip stream, R2 complete")
     offs3 = (range(0, len(inter), 5) if thorough else position_classes(inter, rng, per_class=1))
     for o in offs3:
         cut = inter[:o]
